@@ -9,6 +9,6 @@ import (
 
 func init() {
 	extra = append(extra, func() []api.Check {
-		return []api.Check{wm.C01(), wm.C03(), wm.C04(), wm.C05(), wm.C07(), wm.C08(), wm.C09(), wm.C10(), wm.C12()}
+		return []api.Check{wm.C01(), wm.C03(), wm.C04(), wm.C05(), wm.C06(), wm.C07(), wm.C08(), wm.C09(), wm.C10(), wm.C12()}
 	})
 }
